@@ -191,7 +191,7 @@ def write_json(path, obj):
         json.dump(_nonull(obj), f, separators=(",", ":"))
 
 
-def validate_traces(module, cfg, traces, *, env_name="TRACE_FILE", workers=1, timeout=900, extra_env=None, batch=4000):
+def validate_traces(module, cfg, traces, *, env_name="TRACE_FILE", workers=1, timeout=900, extra_env=None, batch=4000, max_events=200000):
     """Validate recorded traces against a Trace spec.
 
     Convention of every Trace*.tla:  initial states are one per trace (tid \\in 1..Len(Traces)); a CONSTRAINT prints
@@ -201,8 +201,17 @@ def validate_traces(module, cfg, traces, *, env_name="TRACE_FILE", workers=1, ti
     """
     accepted = set()
     results = []
-    for off in range(0, len(traces), batch):
-        chunk = traces[off:off + batch]
+    # batches are bounded by trace count AND by total event count (the Json module holds the whole file on TLC's heap)
+    offs, off = [], 0
+    while off < len(traces):
+        n, evs = 0, 0
+        while off + n < len(traces) and n < batch and (n == 0 or evs + len(traces[off + n]) <= max_events):
+            evs += len(traces[off + n]) if hasattr(traces[off + n], "__len__") else 1
+            n += 1
+        offs.append((off, n))
+        off += n
+    for off, n in offs:
+        chunk = traces[off:off + n]
         d = scratch("tr")
         path = os.path.join(d, "traces.json")
         write_json(path, chunk)
